@@ -246,7 +246,7 @@ def run(ctx: core.Ctx) -> int:
         c["seed"] = ctx.seed * 1000003 + i
     ctx.exhaustive = True
     # 2. binding: read the compiled matcher off the real code
-    bound = core.pmap(bind_case, cases)
+    bound = ctx.pmap(bind_case, cases)
     unbound = [b for b in bound if b["impl"] is None]
     ctx.notes["binding_failures"] = len(unbound)
     if unbound:
@@ -305,10 +305,10 @@ def run(ctx: core.Ctx) -> int:
         b = by_id[c["id"]]
         api_cases.append({**c, "impl": b["impl"], "n_random": 30 if q else 80,
                           "full_len": 2 if (q or len(c["globs"]) > 1 or len(c["globs"][0]) > 5) else 3})
-    events = core.pmap(api_case, api_cases)
+    events = ctx.pmap(api_case, api_cases)
     lint_n = 160 if q else 2500
     lint_cases = [{**c, "nested": bool(i % 2)} for i, c in enumerate(rnd.sample(cases, min(lint_n, len(cases))))]
-    lint_events = core.pmap(lint_case, lint_cases, chunksize=4)
+    lint_events = ctx.pmap(lint_case, lint_cases, chunksize=4)
     for e in lint_events:
         e["tid"] = e["tid"] + 10_000_000
     crashes = [e for e in lint_events if e["via"] == "lint-crash"]
